@@ -19,6 +19,13 @@ package classifier
 //@ // C06 (clause 3): the Copyright pseudo-matches produced while tokenising the
 //@ // input (one per ignorable line, on exactly that line)
 //@ ghostvar pseudoMs Matches
+//@ // candsG: the sorted candidate list that the overlap filter works on.
+//@ // isoAt(ms, x): candidate x shares no line with any other candidate.
+//@ ghostvar candsG Matches
+//@ spec linesDisjoint(a *Match, b *Match) bool = a.EndLine < b.StartLine || b.EndLine < a.StartLine
+//@ spec containsM(a *Match, b *Match) bool = a.StartLine <= b.StartLine && a.EndLine >= b.EndLine
+//@ spec lineOrd(ms Matches) bool = forall k int :: 0 <= k && k < len(ms) ==> ms[k].StartLine <= ms[k].EndLine
+//@ spec isoAt(ms Matches, x int) bool = forall j int :: 0 <= j && j < len(ms) && j != x ==> linesDisjoint(ms[x], ms[j])
 //@
 //@ func confidencePercentage
 //@   arith bv
@@ -598,6 +605,10 @@ package classifier
 //@   modifies nothing
 //@   ghostset lastScore = result0 after score
 //@   ghostset pseudoMs = result0.Matches after tokenizeStream
+//@   ghostset candsG = candidates after Sort
+//@   // what does hold (and pins the known finding down): a candidate that shares
+//@   // no line with any other candidate always survives the overlap filter
+//@   ensures [isolated-reported @C06] result0.TotalInputLines > 0 ==> (forall x int :: 0 <= x && x < len(candsG) && isoAt(candsG, x) ==> (exists j int :: 0 <= j && j < len(result0.Matches) && result0.Matches[j] == candsG[x]))
 //@   ensures [pseudo-reported @C06] result0.TotalInputLines > 0 ==> (forall k int :: 0 <= k && k < len(pseudoMs) ==> (exists j int :: 0 <= j && j < len(result0.Matches) && result0.Matches[j] == pseudoMs[k]))
 //@   access Match.Confidence write requires same(value, lastScore)
 //@   // C04: the loops over the corpus and over the first-pass survivors visit
@@ -616,6 +627,10 @@ package classifier
 //@   loop 3 invariant okCands(candidates, id, c.threshold)
 //@   loop 3 invariant candidates == nil || (fresh(candidates) && ref(candidates) != ref(id.Matches))
 //@   loop 3 invariant (l in c.docs) && d == c.docs[l] && okMRs(matches, len(id.Tokens))
+//@   loop 4 invariant lineOrd(candidates) && same(candsG, candidates) && (forall x int :: 0 <= x && x <= rangeindex && isoAt(candidates, x) ==> retain[x])
+//@   loop 5 invariant same(candsG, candidates) && (forall x int :: 0 <= x && x < i && isoAt(candidates, x) ==> retain[x]) && (isoAt(candidates, i) ==> keep) && rangeindex < i && lineOrd(candidates) && (forall p int :: (p in proposals) ==> p < i && containsM(candidates[i], candidates[p]))
+//@   loop 6 invariant same(candsG, candidates) && lineOrd(candidates) && (forall x int :: 0 <= x && x <= i && isoAt(candidates, x) ==> retain[x]) && (forall p int :: (p in proposals) ==> p < i && containsM(candidates[i], candidates[p]))
+//@   loop 7 invariant same(candsG, candidates) && (forall x int :: 0 <= x && x < len(candidates) && isoAt(candidates, x) ==> retain[x]) && (forall x int :: 0 <= x && x <= rangeindex && retain[x] ==> (exists j int :: 0 <= j && j < len(out) && out[j] == candidates[x]))
 //@   loop 4 invariant len(retain) == len(candidates) && fresh(retain) && okCands(candidates, id, old(c.threshold)) && sortedConf(candidates)
 //@   loop 5 invariant len(retain) == len(candidates) && fresh(retain) && okCands(candidates, id, old(c.threshold)) && sortedConf(candidates)
 //@   loop 5 invariant proposals != nil && fresh(proposals) && (forall p int :: (p in proposals) ==> 0 <= p && p < len(retain))
